@@ -162,6 +162,12 @@ pub enum FilterCfg {
     /// records every measurement; answers with the given mean delay (units of
     /// 2^-32 ns) so that the `offset` path of the port is live
     Recording { log: Rc<RefCell<RecLog>>, mean_delay_units: Option<i128>, seq: Rc<crate::clock::SimTime> },
+    /// any of the above; additionally notes the last mean delay the filter handed back to the
+    /// port (units of 2^-32 ns) in a cell that outlives the filter instance. That value is what
+    /// the port keeps as its live mean (link) delay and subtracts from every later Sync
+    /// measurement, no matter how often the port replaces its filter (C19 compares the exposed
+    /// meanLinkDelay of a P2P port with it).
+    Tracked { inner: Box<FilterCfg>, live: Rc<std::cell::Cell<Option<i128>>> },
 }
 
 impl std::fmt::Debug for FilterCfg {
@@ -170,6 +176,7 @@ impl std::fmt::Debug for FilterCfg {
             FilterCfg::Kalman(_) => write!(f, "KalmanCfg"),
             FilterCfg::Basic(g) => write!(f, "BasicCfg({g})"),
             FilterCfg::Recording { mean_delay_units, .. } => write!(f, "RecordingCfg({mean_delay_units:?})"),
+            FilterCfg::Tracked { inner, .. } => inner.fmt(f),
         }
     }
 }
@@ -178,6 +185,7 @@ pub enum AnyFilter {
     Kalman(Box<KalmanFilter>),
     Basic(BasicFilter),
     Recording { log: Rc<RefCell<RecLog>>, mean_delay_units: Option<i128>, seq: Rc<crate::clock::SimTime>, last: Option<Measurement> },
+    Tracked { inner: Box<AnyFilter>, live: Rc<std::cell::Cell<Option<i128>>> },
 }
 
 impl std::fmt::Debug for AnyFilter {
@@ -186,6 +194,7 @@ impl std::fmt::Debug for AnyFilter {
             AnyFilter::Kalman(_) => write!(f, "Kalman(..)"),
             AnyFilter::Basic(b) => write!(f, "{b:?}"),
             AnyFilter::Recording { last, .. } => write!(f, "Recording(last={last:?})"),
+            AnyFilter::Tracked { inner, .. } => inner.fmt(f),
         }
     }
 }
@@ -201,6 +210,7 @@ impl Filter for AnyFilter {
                 log.borrow_mut().created += 1;
                 AnyFilter::Recording { log, mean_delay_units, seq, last: None }
             }
+            FilterCfg::Tracked { inner, live } => AnyFilter::Tracked { inner: Box::new(AnyFilter::new(*inner)), live },
         }
     }
 
@@ -216,6 +226,13 @@ impl Filter for AnyFilter {
                     mean_delay: mean_delay_units.map(crate::clock::units_to_duration),
                 }
             }
+            AnyFilter::Tracked { inner, live } => {
+                let u = inner.measurement(m, clock);
+                if let Some(d) = u.mean_delay {
+                    live.set(Some(crate::clock::duration_to_units(d)));
+                }
+                u
+            }
         }
     }
 
@@ -227,6 +244,13 @@ impl Filter for AnyFilter {
                 log.borrow_mut().updates += 1;
                 FilterUpdate::default()
             }
+            AnyFilter::Tracked { inner, live } => {
+                let u = inner.update(clock);
+                if let Some(d) = u.mean_delay {
+                    live.set(Some(crate::clock::duration_to_units(d)));
+                }
+                u
+            }
         }
     }
 
@@ -237,6 +261,7 @@ impl Filter for AnyFilter {
             AnyFilter::Recording { log, .. } => {
                 log.borrow_mut().demobilized += 1;
             }
+            AnyFilter::Tracked { inner, .. } => inner.demobilize(clock),
         }
     }
 
@@ -248,6 +273,7 @@ impl Filter for AnyFilter {
                 offset_from_master: last.and_then(|m| m.offset).unwrap_or(Duration::ZERO),
                 mean_delay: last.and_then(|m| m.delay).unwrap_or(Duration::ZERO),
             },
+            AnyFilter::Tracked { inner, .. } => inner.current_estimates(),
         }
     }
 }
